@@ -511,6 +511,17 @@ def rule_filesystem(ctx):
             if isinstance(st, ast.Assign) and isinstance(st.targets[0], ast.Attribute) and st.targets[0].attr == "file_system" and str(norm(st.value)) == "self.file_system" \
                     and isinstance(st.targets[0].value, ast.Name) and st.targets[0].value.id in {n_.id for n_ in ast.walk(lp.target) if isinstance(n_, ast.Name)}:
                 later = True
+    # (c) set on each object right where it is made: X = from_json_dict(..); X.file_system = self.file_system
+    mst = enclosing_stmt(made[0])
+    if isinstance(mst, ast.Assign) and len(mst.targets) == 1 and isinstance(mst.targets[0], ast.Name) and mst.value is made[0]:
+        x_ = mst.targets[0].id
+        blk = parent(mst)
+        sibs = next((getattr(blk, fl_) for fl_ in ("body", "orelse", "finalbody") if any(z is mst for z in getattr(blk, fl_, []) or [])), [])
+        k_ = [i for i, z in enumerate(sibs) if z is mst]
+        for st in (sibs[k_[0] + 1:] if k_ else []):
+            if isinstance(st, ast.Assign) and isinstance(st.targets[0], ast.Attribute) and st.targets[0].attr == "file_system" and str(norm(st.targets[0].value)) == x_ \
+                    and str(norm(st.value)) == "self.file_system":
+                later = True
     ok = direct or later
     ctx.ob("FileSet.load_cache.file_system", ok, "from_json_dict(%s); file system set on the loaded entries: %s" % (", ".join(str(norm(a_))[:30] for a_ in made[0].args), later or direct),
            "info.file_system = self.file_system for every loaded entry (or handed to the constructor): find() gives the same FileInfo with or without the cache",
